@@ -298,6 +298,29 @@ def h_concrete_small_norm(ctx):
     ctx.claim('stabilised_rounding_equals_plain', bool(ok))
 
 
+def h_concrete_accuracy_scales(ctx):
+    """accuracy(Y2 + s E, Y2) for a geometric sequence of perturbation sizes s
+    (real code): the exponent difference of the two stabilised norms takes
+    positive and negative, integer and half-integer values; the result is the
+    dense relative distance every time."""
+    rng = np.random.default_rng(5)
+    ok = True
+    for n, r in (([3, 4, 3], 2), ([2, 2, 2, 2], [1, 2, 3, 2, 1])):
+        Y2 = teneva.rand(n, r, seed=3)
+        E = teneva.rand(n, 1, seed=4)
+        F2, FE = teneva.full(Y2), teneva.full(E)
+        for k in range(-14, 24):
+            s = 0.7 ** k
+            Y1 = teneva.add(Y2, teneva.mul(E, s))
+            want = np.linalg.norm(s * FE) / np.linalg.norm(F2)
+            got = teneva.accuracy(Y1, Y2)
+            ok = ok and abs(got - want) <= 1e-6 * want
+            got_r = teneva.accuracy(Y2, Y1)
+            want_r = np.linalg.norm(s * FE) / np.linalg.norm(F2 + s * FE)
+            ok = ok and abs(got_r - want_r) <= 1e-6 * want_r
+    ctx.claim('accuracy_is_relative_distance_at_every_scale', bool(ok))
+
+
 def h_concrete_saturation_boundary(ctx):
     """accuracy() next to its saturation bounds (real code, exact power-of-two
     inputs; the distances are far outside what a float replay of the symbolic
@@ -362,6 +385,7 @@ def instances(tier):
     out.append({'func': 'h_orth_stab_d2', 'params': {'n1': 2, 'n2': 2, 'r': 2}})
     out.append({'func': 'h_concrete_small_norm', 'params': {}, 'opts': {'concrete_only': True}})
     out.append({'func': 'h_concrete_saturation_boundary', 'params': {}, 'opts': {'concrete_only': True}})
+    out.append({'func': 'h_concrete_accuracy_scales', 'params': {}, 'opts': {'concrete_only': True}})
     for k in ([1, -3] if quick else [1, -1, 5, -7]):
         out.append({'func': 'h_rescale', 'params': {'shape': [1, 2, 1], 'k': k}})
     return out
